@@ -174,10 +174,15 @@ def build(ctx, cfg):
 
             p.pos0 = getattr(p, "pos0", {})
             p.pos0[s] = [z3.Real(f"pos{ids[s]}_{a}") for a in range(len(shape) - 1)]
+            if cfg.get("int_first_axis"):
+                # the first coordinate is a whole number stored as a Python int (a plane index): the exported
+                # columns then have different dtypes
+                p.pos0[s][0] = z3.Int(f"pos{ids[s]}_0")
+            wrap = [(SInt(e) if z3.is_int(e) else SReal(e)) for e in p.pos0[s]]
             if multi_pos:
-                d["y"], d["x"] = SReal(p.pos0[s][0]), SReal(p.pos0[s][1])
+                d["y"], d["x"] = wrap[0], wrap[1]
             else:
-                d[POS] = [SReal(e) for e in p.pos0[s]]
+                d[POS] = list(wrap)
         elif multi_pos:
             d["y"], d["x"] = float(s), float(2 * s)
         elif len(shape) == 4:
